@@ -36,10 +36,24 @@ pub struct AdapterError {}
 pub struct PrivKey {}
 pub struct Instant {}
 impl Instant { #[verifier::external_body] pub fn now() -> Instant { unimplemented!() } }
-pub struct Interval {}
+/// tokio::time::Interval: only its configuration is modelled
+pub struct Interval { pub period: Duration, pub behavior: tokio::time::MissedTickBehavior }
 impl Interval {
     /// completes when the next keep-alive period has elapsed (wall-clock: not modelled)
     #[verifier::external_body] pub fn tick(&mut self) -> Instant { unimplemented!() }
+    pub fn set_missed_tick_behavior(&mut self, behavior: tokio::time::MissedTickBehavior)
+        ensures final(self).behavior == behavior, final(self).period == old(self).period
+    { self.behavior = behavior; }
+}
+#[derive(Clone, Copy, PartialEq, Eq, Structural)]
+pub enum MissedTickBehavior { Burst, Delay, Skip }
+pub fn vx_interval(period: Duration) -> (r: Interval) ensures r.period == period, r.behavior == MissedTickBehavior::Burst
+{ Interval { period, behavior: MissedTickBehavior::Burst } }
+pub mod tokio {
+    pub mod time {
+        pub use super::super::MissedTickBehavior;
+        pub use super::super::vx_interval as interval;
+    }
 }
 impl Uuid { #[verifier::external_body] pub fn new_v4() -> Uuid { unimplemented!() } }
 #[verifier::external_body] pub fn vx_trace_id_string() -> String { unimplemented!() }
@@ -48,6 +62,7 @@ impl Uuid { #[verifier::external_body] pub fn new_v4() -> Uuid { unimplemented!(
 
 // SystemTime::now().duration_since(UNIX_EPOCH).expect(..).as_secs(): an arbitrary u64
 pub struct SystemTime {}
+#[derive(Clone, Copy, PartialEq, Eq, Structural)]
 pub struct Duration { pub secs: u64 }
 #[derive(Debug)]
 pub struct SystemTimeError {}
@@ -56,7 +71,15 @@ impl SystemTime {
     #[verifier::external_body] pub fn now() -> SystemTime { unimplemented!() }
     #[verifier::external_body] pub fn duration_since(&self, earlier: SystemTime) -> (r: Result<Duration, SystemTimeError>) ensures r is Ok { unimplemented!() }
 }
-impl Duration { pub fn as_secs(&self) -> (r: u64) ensures r == self.secs { self.secs } }
+impl Duration {
+    pub fn as_secs(&self) -> (r: u64) ensures r == self.secs { self.secs }
+    pub const fn from_secs(secs: u64) -> (r: Duration) ensures r.secs == secs { Duration { secs } }
+}
+/// `"127.0.0.1:8080".parse().expect(..)`: parsing a literal socket address (R25); succeeds for this literal (assumed)
+pub struct AddrParseError {}
+impl std::fmt::Debug for AddrParseError { #[verifier::external_body] fn fmt(&self, f: &mut std::fmt::Formatter<'_>) -> std::fmt::Result { unimplemented!() } }
+#[verifier::external_body]
+pub fn vx_parse_lit(s: &str) -> (r: Result<SocketAddr, AddrParseError>) ensures r is Ok { unimplemented!() }
 
 pub assume_specification<T> [std::option::Option::<T>::as_deref] (_0: &std::option::Option<T>) -> (r: std::option::Option<&<T as std::ops::Deref>::Target>)
     where T: std::ops::Deref;
@@ -159,6 +182,56 @@ pub fn create_ciphers(shared_secret: &[u8]) -> (r: Result<(Aes128Cfb8Enc, Aes128
         shared_secret@.len() != 16 ==> r is Err,
 { unimplemented!() }
 
+// ------------------------------------------------------------------ listener side (U9): socket, PROXY protocol, limiter
+pub struct TcpStream { pub id: int }
+#[derive(Clone, Copy)]
+pub struct ParseConfig { pub include_tlvs: bool, pub allow_v1: bool, pub allow_v2: bool }
+#[derive(Clone, Copy)]
+pub struct ProxiedAddress { pub source: SocketAddr, pub destination: SocketAddr }
+pub struct ProxyHeader { pub addr: Option<ProxiedAddress> }
+impl ProxyHeader {
+    pub fn proxied_address(&self) -> (r: Option<&ProxiedAddress>)
+        ensures match (r, self.addr) { (Some(a), Some(b)) => *a == b, (None, None) => true, _ => false }
+    { self.addr.as_ref() }
+}
+/// what the proxy-header crate makes of the first bytes of this socket under this configuration:
+/// Err (no valid header of an enabled version) or the announced addresses (None for a LOCAL header). Trusted.
+pub uninterp spec fn proxy_parse(stream: TcpStream, config: ParseConfig) -> Result<Option<ProxiedAddress>, ()>;
+pub struct ProxiedStream { pub header: ProxyHeader, pub shut: Ghost<bool> }
+impl ProxiedStream {
+    #[verifier::external_body]
+    pub fn create_from_tokio(stream: TcpStream, config: ParseConfig) -> (r: Result<ProxiedStream, IoError>)
+        ensures match r { Ok(s) => proxy_parse(stream, config) == Ok::<Option<ProxiedAddress>, ()>(s.header.addr) && !s.shut@, Err(_) => proxy_parse(stream, config) is Err }
+    { unimplemented!() }
+    #[verifier::external_body]
+    pub fn unproxied(stream: TcpStream) -> (r: ProxiedStream) ensures r.header.addr is None, !r.shut@ { unimplemented!() }
+    pub fn proxy_header(&self) -> (r: &ProxyHeader) ensures *r == self.header { &self.header }
+    #[verifier::external_body]
+    pub fn shutdown(&mut self) -> (r: Result<(), IoError>) ensures final(self).shut@, final(self).header == old(self).header { unimplemented!() }
+}
+/// `RateLimiter<IpAddr>`: the keys it was asked about, in order; its verdict is an uninterpreted function of that history
+/// (the limiter itself is unit U8)
+pub uninterp spec fn admit_oracle(history: Seq<IpAddr>, key: IpAddr) -> bool;
+pub struct RateLimiter { pub calls: Ghost<Seq<IpAddr>> }
+impl RateLimiter {
+    #[verifier::external_body]
+    pub fn enqueue(&mut self, key: IpAddr) -> (r: bool)
+        ensures final(self).calls@ == old(self).calls@.push(key), r == admit_oracle(old(self).calls@, key)
+    { unimplemented!() }
+}
+pub struct TaskTracker {}
+impl TaskTracker { #[verifier::external_body] pub fn new() -> TaskTracker { unimplemented!() } }
+pub struct Elapsed {}
+/// tokio::time::timeout: the inner future either completes or the deadline passes (trusted); C14 makes the
+/// *duration argument* an obligation at the call site
+pub uninterp spec fn cfg_timeout() -> Duration;
+#[verifier::external_body]
+pub fn timeout<T>(duration: Duration, value: T) -> (r: Result<T, Elapsed>)
+    requires
+        duration == cfg_timeout(), // @cl:C14.timeout.configured_deadline
+    ensures r matches Ok(v) ==> v == value
+{ unimplemented!() }
+
 /// packet-level events of one connection (ghost)
 pub enum Ev {
     /// a complete frame with this packet id and this body was taken from the client
@@ -210,6 +283,14 @@ impl Stream {
         ensures final(self).inp == old(self).inp, final(self).out == old(self).out, final(self).writes == old(self).writes, final(self).ev == old(self).ev,
             final(self).key@ == (match encryptor { Some(e) => Some(e.key@), None => None }),
     { proof { self.key@ = match encryptor { Some(e) => Some(e.key@), None => None }; } }
+}
+pub struct CipherStream {}
+impl CipherStream {
+    /// wraps the socket: nothing written, no cipher, empty event log; the bytes the client will send are arbitrary
+    #[verifier::external_body]
+    pub fn from_stream<S>(inner: S) -> (r: Stream)
+        ensures r.wf(), r.out@ == Seq::<u8>::empty(), r.writes@ == 0, r.key@ is None, r.ev@ == Seq::<Ev>::empty()
+    { unimplemented!() }
 }
 pub type Cursor = Reader;
 impl Reader {
